@@ -32,7 +32,7 @@ func (c14) Components() map[string]string {
 	return map[string]string{
 		"crl.FileCache (Get, Set, NewFileCache)": "real",
 		"internal/file.WriteFile":                "real",
-		"os (file system calls)":                 "simos shim over kernel tmpfs: real rename/open/unlink semantics, simulated scheduling, faults and kills",
+		"os (file system calls)":                 "simos shim over kernel tmpfs: real rename/open/unlink semantics, simulated scheduling, faults and kills, simulated inode numbers (reused after the last unlink and close, as on ext4)",
 		"clock":                                  "synctest bubble",
 		"x509 CRL creation/parsing":              "real (crypto/x509)",
 		"reference model":                        "porcupine nondeterministic register per URL (miss always legal)",
